@@ -14,7 +14,8 @@ LEVEL_TEXT = ("Held on every generated system of the run: operator kinds x metho
               "accepted with a residual below the method's stopping tolerance; well-conditioned classes must be silent. "
               "Bounds: n<=20 (quick) / 60 (thorough), cond(A - e M) <= 40.")
 LEVEL_NOTE = "Trusts torch.linalg.solve/svdvals on the dense shadow; tolerances are C*kappa*stopping tolerance with C=20."
-RULE = ("cases drawn by seeded sampling over operator kind {dense, mv, mv_rmv, all, herm_mv, add, sub, mul, matmul, adj, adj_mv, jac} x "
+RULE = ("cases drawn by seeded sampling over operator kind {dense, mv, mv_rmv, all, herm_mv, add, sub, mul, matmul, adj, adj_mv, jac, add_herm, matmul_rb / add_rb (batch "
+        "dimensions carried by the second operand only)} x "
         "method {None, exactsolve, custom_exactsolve, cg, bicgstab, gmres, broyden1} x emode {none, E, EM} x batch pattern x dtype x "
         "spectrum {spd, indef, nonherm (random singular vectors), nonherm_pd (positive-definite Hermitian part)} x n x ncols x tolerance setting x special right-hand sides; non-trivial = B != 0 and the "
         "solver evaluated >= 2 operator products (counted by the spy operator) or used the dense path with n >= 2")
@@ -26,7 +27,7 @@ ASSUMPTIONS = ["cond(A - e_c M) <= 40 for every column and batch element (genera
                "broyden1 when the total number of unknowns <= 40; gmres never (only 'silent => converged')"]
 BUDGET = {"quick": {"worker_timeout": 1200, "case_timeout": 400}, "thorough": {"worker_timeout": 3400, "case_timeout": 600}}
 
-OPKINDS = ["dense", "mv", "mv_rmv", "all", "herm_mv", "add", "sub", "mul", "matmul", "adj", "adj_mv", "jac", "add_herm"]
+OPKINDS = ["dense", "mv", "mv_rmv", "all", "herm_mv", "add", "sub", "mul", "matmul", "adj", "adj_mv", "jac", "add_herm", "matmul_rb", "add_rb"]
 METHODS = [None, "exactsolve", "custom_exactsolve", "cg", "bicgstab", "gmres", "broyden1"]
 KMAX = 40.0
 
@@ -61,7 +62,7 @@ def cases(seed, tier):
     for n in (2, 3):
         for method in METHODS:
             for emode in ("none", "E", "EM"):
-                for kind in ("dense", "mv", "add"):
+                for kind in ("dense", "mv", "add", "matmul_rb"):
                     out.append({"group": "directed_vecbatch", "seed": sub_seed(seed, "c01d", k), "method": method, "opkind": kind,
                                 "emode": emode, "batch": 0, "BA": [n], "BB": [], "dtype": "float64", "spectrum": "spd", "n": n,
                                 "ncols": n, "tol": "default", "special": None, "kappa": 3.0})
@@ -119,6 +120,13 @@ def build_operator(kind, A, rng, tgen, counter):
     if kind == "matmul":
         R = gen.make_matrix("nonherm", n, (), dt, 3.0, rng, tgen)
         return gen.leaf_operator("mv_rmv", torch.matmul(A, torch.linalg.inv(R)), counter).matmul(gen.leaf_operator("mv", R, counter))
+    if kind == "matmul_rb":
+        # the batch dimensions come from the SECOND factor only (the first is a single matrix)
+        L = gen.make_matrix("nonherm", n, (), dt, 3.0, rng, tgen)
+        return gen.leaf_operator("mv", L, counter).matmul(gen.leaf_operator("mv_rmv", torch.matmul(torch.linalg.inv(L), A), counter))
+    if kind == "add_rb":
+        A1 = torch.randn(A.shape[-2:], dtype=dt, generator=tgen)
+        return gen.leaf_operator("mv_rmv", A1, counter) + gen.leaf_operator("mv", A - A1, counter)
     if kind == "adj":
         return gen.leaf_operator("mv_rmv", A.transpose(-2, -1).conj().contiguous(), counter).H
     if kind == "adj_mv":
